@@ -150,6 +150,9 @@ pub fn check(c: &OntCase, stats: &mut Stats) -> CheckResult {
     if c.facts.version.1 > 12 || c.facts.version.2 > 31 {
         stats.label("non-calendar-version");
     }
+    if s1.terms.values().any(|t| t.replacement.is_some_and(|r| r >= 10_000_000)) {
+        stats.label("replacement-beyond-id-space");
+    }
     if s1.terms.contains_key(&9_999_999) {
         stats.label("max-term-id");
     }
@@ -206,7 +209,7 @@ impl Property for C07 {
         }
     }
     fn required_labels(&self, _tier: Tier) -> Vec<&'static str> {
-        vec!["nontrivial", "term-name-multibyte-at-255", "gene-name-multibyte-at-255", "name-over-255", "names-fit", "obsolete", "replaced", "empty-section", "record-without-terms", "max-term-id", "max-record-id", "file>65535-bytes", "non-calendar-version"]
+        vec!["nontrivial", "term-name-multibyte-at-255", "gene-name-multibyte-at-255", "name-over-255", "names-fit", "obsolete", "replaced", "empty-section", "record-without-terms", "max-term-id", "max-record-id", "file>65535-bytes", "non-calendar-version", "replacement-beyond-id-space"]
     }
     fn run_generated(&self, tier: Tier, seed: u64, n: u64, stats: &mut Stats) -> Option<(Value, Failure)> {
         run_typed(strategy(tier), seed, n, stats, check)
